@@ -482,3 +482,107 @@ Definition frame_alloc (chk : bool) (d : desc) (bs : bytes) : N :=
     let r := skipn 4 bs in
     if chk then (if count_fits L r then L + alloc true d (firstn (N.to_nat L) r) else 0)
     else (L + two32 - 1) mod two32.
+
+(* ------------------------------------------------------------------------------------------ *)
+(* the decoder that is extracted and run against the implementation: the same function as [dec]
+   (theorem decf_eq in Proofs/CodecFastP.v), with the length tests written so that they inspect
+   only as many bytes as they need instead of measuring the whole remaining input *)
+
+Fixpoint shorter (bs : bytes) (w : nat) : bool :=            (* length bs <? w *)
+  match w, bs with
+  | O, _ => false
+  | S _, [] => true
+  | S w', _ :: t => shorter t w'
+  end.
+
+Fixpoint fits (n : N) (r : bytes) : bool :=                  (* n <=? length r *)
+  match r with
+  | [] => n =? 0
+  | _ :: t => if n =? 0 then true else fits (N.pred n) t
+  end.
+
+Definition dnat (bs : bytes) : option (N * bytes) :=         (* dec_nat *)
+  match bs with
+  | [] => None
+  | b :: t =>
+    let l := lead_ones b in
+    if shorter t l then None
+    else
+      let x := (b - pre_base l) * pow256 l + le_dec (firstn l t) in
+      if class_lo l <=? x then Some (x, skipn l t) else None
+  end.
+
+Definition decf_counted (f : decoder) (lim : N) (bs : bytes) : option (list val * bytes) :=
+  match dnat bs with
+  | Some (n, r) => if (n <=? lim) && fits n r then rep f (N.to_nat n) r else None
+  | None => None
+  end.
+
+Fixpoint decf (d : desc) (bs : bytes) {struct d} : option (val * bytes) :=
+  match d with
+  | DU w => if shorter bs w then None else Some (VN (le_dec (firstn w bs)), skipn w bs)
+  | DNat bound =>
+      match dnat bs with
+      | Some (x, r) => if x <? bound then Some (VN x, r) else None
+      | None => None
+      end
+  | DFix n => if shorter bs n then None else Some (VB (firstn n bs), skipn n bs)
+  | DBlob =>
+      match dnat bs with
+      | Some (n, r) => if fits n r then Some (VB (firstn (N.to_nat n) r), skipn (N.to_nat n) r) else None
+      | None => None
+      end
+  | DBlob2 =>
+      match dnat bs with
+      | Some (n0, r0) =>
+          match dnat r0 with
+          | Some (n, r) => if (n0 =? n) && fits n r
+                           then Some (VB (firstn (N.to_nat n) r), skipn (N.to_nat n) r) else None
+          | None => None
+          end
+      | None => None
+      end
+  | DBits n =>
+      let w := nbytes n in
+      if shorter bs w then None
+      else let x := le_dec (firstn w bs) in
+           if x <? 2 ^ N.of_nat n then Some (VN x, skipn w bs) else None
+  | DSeq lim d' =>
+      match decf_counted (decf d') lim bs with Some (vs, r) => Some (VL vs, r) | None => None end
+  | DVec n d' =>
+      match rep (decf d') n bs with Some (vs, r) => Some (VL vs, r) | None => None end
+  | DOpt d' =>
+      match bs with
+      | t :: r => if t =? 0 then Some (VO None, r)
+                  else if t =? 1 then match decf d' r with Some (v, r') => Some (VO (Some v), r') | None => None end
+                  else None
+      | [] => None
+      end
+  | DVar alts =>
+      match bs with
+      | t :: r => match assoc t (map (fun a => (fst a, decf (snd a))) alts) with
+                  | Some f => match f r with Some (v, r') => Some (VT t v, r') | None => None end
+                  | None => None
+                  end
+      | [] => None
+      end
+  | DMap k v =>
+      match decf_counted (pair_dec (decf k) (decf v)) unlimited bs with
+      | Some (es, r) => if strict_sorted (map entry_key es) then Some (VL es, r) else None
+      | None => None
+      end
+  | DStruct ds =>
+      match seq_all (map decf ds) bs with Some (vs, r) => Some (VL vs, r) | None => None end
+  end.
+
+Definition decf_frame (d : desc) (bs : bytes) : option (val * bytes) :=
+  if shorter bs 4 then None
+  else
+    let L := le_dec (firstn 4 bs) in
+    let r := skipn 4 bs in
+    if fits L r then
+      match decf d (firstn (N.to_nat L) r) with
+      | Some (v, []) => Some (v, skipn (N.to_nat L) r)
+      | _ => None
+      end
+    else None.
